@@ -92,9 +92,23 @@ class Lib:
     class D:
       pass
 
-    def fn1(cls, *args, **kwargs):
-      del cls, args, kwargs
-      return 'fn1'
+    def make_fn(fname):
+      def fn(cls, *args, **kwargs):
+        """A detour destination FUNCTION. Called through a `call` node of a program it runs that
+        node's body (which may raise, create `cls` again, open nested detours); called from a
+        behavioural probe it just returns."""
+        del args, kwargs
+        stack = getattr(lib.tls, 'call_stack', [])
+        if stack and not stack[-1]['ran'] and stack[-1]['cls'] is cls:
+          frame = stack[-1]
+          frame['ran'] = True
+          frame['runner'].obs.append(['call:' + cls.__name__, fname, None])
+          frame['runner'].run(frame['body'])
+        return fname
+      fn.__name__ = fname
+      return fn
+    lib = self
+    fn1, fn2 = make_fn('fn1'), make_fn('fn2')
 
     class N:
       """A class that defines its own __new__ (detour saves and replaces it)."""
@@ -103,9 +117,11 @@ class Lib:
         del args, kwargs
         return super().__new__(cls)
 
+    self.tls = threading.local()
     self.classes = {'A': A, 'B': B, 'C': C, 'D': D, 'N': N}
     self.dests = dict(self.classes)
     self.dests['fn1'] = fn1
+    self.dests['fn2'] = fn2
     self.wrappers = {}
     for n in ('A', 'B', 'N'):
       w = pg.wrap(self.classes[n])
@@ -180,7 +196,6 @@ class Lib:
         return lib.tls.body()
 
     self.Probe = Probe
-    self.tls = threading.local()
     self.overrides = {}
     from pyglove.core.views import base as views_base
 
@@ -434,6 +449,7 @@ class Lib:
     self.tls.functor = self.Probe(SENTINEL, SENTINEL, override_args=True)
     self.tls.timeits = {}
     self.tls.timeit_active = []
+    self.tls.call_stack = []
     self.tls.onchange = self.OnChange(x=1)
     self.tls.typed = pg.Dict(x=1, value_spec=pg.typing.Dict([('x', pg.typing.Int())]))
 
@@ -513,6 +529,25 @@ class Runner:
       return
     if op == 'act':
       self.act(p[1], p[2])
+      return
+    if op == 'call':
+      # create an object of class p[2]; a function destination runs the body p[3]
+      cls = self.lib.classes[p[2]]
+      frame = {'cls': cls, 'body': p[3], 'ran': False, 'runner': self}
+      rec = {'mgr': 'call', 'arg': {'c': p[2]}, 'before': self.snapshot(), 'entered': False}
+      self.blocks.append(rec)
+      self.lib.tls.call_stack.append(frame)
+      try:
+        o = cls()
+        if not frame['ran']:
+          self.obs.append(['new:' + p[2], o if isinstance(o, str) else type(o).__name__, None])
+        rec['exit'] = 'normal'
+      except BaseException as e:
+        rec['exit'] = 'exc:' + type(e).__name__
+        raise
+      finally:
+        self.lib.tls.call_stack.pop()
+        rec['after'] = self.snapshot()
       return
     if op == 'scope':
       name, arg, body = p[1], p[2], p[3]
@@ -754,7 +789,7 @@ def gen_arg(rng, name):
             'inh': rng.choice([False, True, 'global', 'p1', False, True])}
   if name == 'detour':
     srcs = rng.sample(['A', 'N', 'B', 'C', 'D', 'N', 'A'], rng.randint(0, 3))
-    return {'kw': {s: rng.choice(['A', 'B', 'C', 'D', 'N', 'fn1']) for s in srcs}}
+    return {'kw': {s: rng.choice(['A', 'B', 'C', 'D', 'N', 'fn1', 'fn2', 'fn1']) for s in srcs}}
   if name == 'apply_wrappers':
     ws = rng.sample(['WA', 'WB', 'WN'], rng.randint(1, 2))
     return {'kw': {w[1:]: w for w in ws}}
@@ -798,9 +833,12 @@ class ProgGen:
     budget[0] -= 1
     if depth <= 0 or budget[0] <= 0:
       return self.leaf(focus)
-    k = r.weighted([(6, 'scope'), (4, 'seq'), (2, 'try'), (1, 'leaf')])
+    in_detour = any(CELL[m] == 'detour' for m in self.open)
+    k = r.weighted([(6, 'scope'), (4, 'seq'), (2, 'try'), (1, 'leaf'), (4 if in_detour else 0, 'call')])
     if k == 'leaf':
       return self.leaf(focus)
+    if k == 'call':
+      return ['call', 'detour', r.choice(['A', 'B', 'C', 'D', 'N']), self.prog(depth - 1, focus, budget)]
     if k == 'seq':
       return ['seq', self.prog(depth, focus, budget), self.prog(depth, focus, budget)]
     if k == 'try':
@@ -886,6 +924,54 @@ def falsy_family(rng, reps=1):
           if outer:
             wx = ['scope', m, t1, wx]
           yield {'threads': [wx, b]}
+
+
+def fn_family(rng, n):
+  """Detour destination FUNCTIONS: normal return, raising, raising and then creating the class
+  again, the class created inside the function, nested detours entered inside the function and
+  after it raised — in one thread and with a second thread doing the same on the same class."""
+  classes = ['A', 'B', 'C', 'D', 'N']
+
+  def item(c, depth):
+    k = rng.weighted([(3, 'ok'), (4, 'raise'), (3, 'again'), (3, 'probe'), (3 if depth > 0 else 0, 'nested'),
+                      (2 if depth > 0 else 0, 'fn_nested'), (1, 'other')])
+    if k == 'ok':
+      return ['call', 'detour', c, ['probe', 'detour'] if rng.chance(0.5) else ['skip']]
+    if k == 'raise':
+      return ['try', ['call', 'detour', c, ['seq', ['probe', 'detour'], ['raise']] if rng.chance(0.5) else ['raise']]]
+    if k == 'again':          # the function creates the very class again (allowed: temporary c -> c)
+      body = ['seq', ['call', 'detour', c, ['skip']], ['raise'] if rng.chance(0.4) else ['skip']]
+      return ['try', ['call', 'detour', c, body]]
+    if k == 'probe':
+      return ['probe', rng.choice(['detour', 'detour', 'apply_wrappers'])]
+    if k == 'nested':         # a nested detour entered later (after a possible exception above)
+      m, a = ('detour', gen_arg(rng, 'detour')) if rng.chance(0.7) else ('apply_wrappers', gen_arg(rng, 'apply_wrappers'))
+      return ['scope', m, a, seq([item(c, depth - 1) for _ in range(rng.randint(1, 3))] + [['probe', 'detour']])]
+    if k == 'fn_nested':      # the function itself opens a detour, maybe raises inside it
+      inner = ['scope', 'detour', gen_arg(rng, 'detour'),
+               ['seq', ['probe', 'detour'], ['seq', item(c, depth - 1), ['raise'] if rng.chance(0.4) else ['skip']]]]
+      return ['try', ['call', 'detour', c, inner]]
+    return ['call', 'detour', rng.choice(classes), ['skip']]
+
+  def seq(xs):
+    out = xs[-1]
+    for x in reversed(xs[:-1]):
+      out = ['seq', x, out]
+    return out
+
+  def one():
+    c = rng.choice(classes)
+    kw = {c: rng.choice(['fn1', 'fn2'])}
+    if rng.chance(0.5):
+      d = rng.choice([x for x in classes if x != c])
+      kw[d] = rng.choice(classes + ['fn1'])
+    body = seq([['probe', 'detour']] + [item(c, 2) for _ in range(rng.randint(2, 5))] + [['probe', 'detour']])
+    return ['seq', ['scope', 'detour', {'kw': kw}, body], ['probe', 'detour']]
+  for i in range(n):
+    if i % 4 == 3:
+      yield {'threads': [['seq', one(), ['sync']], ['seq', one(), ['sync']]]}
+    else:
+      yield {'threads': [one()]}
 
 
 def size(p):
@@ -1001,6 +1087,7 @@ class C17(Prop):
       b = ['seq', ['try', ['scope', m2, a2, inner_b]], ['seq', ['probe', m2], ['sync']]]
       yield {'threads': [a, ['seq', ['sync'], b]]}
     yield from falsy_family(rng, 1 if tier == 'quick' else 8)
+    yield from fn_family(rng, n_two // 2)
     if tier == 'thorough':
       yield from self.exhaustive_pairs(rng)
 
@@ -1125,7 +1212,8 @@ class C17(Prop):
           continue
         diff = sorted(k for k in b['before'] if b['before'][k] != b['after'].get(k) and k not in shared(tid))
         if diff:
-          failing.append((0 if b['mgr'] in diff else 1, len(failing), tid, b, diff))
+          own = b['mgr'] in diff or (b['mgr'] == 'call' and 'detour' in diff)
+          failing.append((0 if own else 1, len(failing), tid, b, diff))
     if failing:
       own, _, tid, b, diff = min(failing, key=lambda x: (x[0], x[1]))
       m = b['mgr']
@@ -1208,6 +1296,9 @@ class C17(Prop):
     class Stop(Exception):
       pass
 
+    class Abort(Exception):
+      pass
+
     def cur(env, name):
       if name in shared and not any(CELL[m] == CELL[name] for m, _ in env):
         return None       # another thread's documented process-wide setting may show through
@@ -1238,11 +1329,13 @@ class C17(Prop):
       elif op == 'act':
         if p[2] == 'wrapped_probe':
           out.append((p[1], cur(env, p[1])))
+      elif op == 'call':
+        raise Abort()     # whether the body runs depends on the mapping: not followed here
       elif op == 'scope':
         go(p[3], env + [(p[1], p[2])])
     try:
       go(prog, [])
-    except Stop:
+    except (Stop, Abort):
       pass
     return out
 
@@ -1264,6 +1357,8 @@ class C17(Prop):
       for n in walk(prog):
         if n[0] == 'scope':
           h.append('scope:' + n[1])
+        if n[0] == 'call':
+          h.append('call')
       if any(n[0] == 'raise' for n in walk(prog)):
         h.append('has-raise')
     for t in out.get('model', {}).get('threads', []):
@@ -1305,6 +1400,11 @@ class C17(Prop):
       yield p[3]
       for c in self._shrink_prog(p[3]):
         yield ['scope', p[1], p[2], c]
+    elif op == 'call':
+      yield p[3]
+      yield ['skip']
+      for c in self._shrink_prog(p[3]):
+        yield ['call', p[1], p[2], c]
     elif op in ('probe', 'raise', 'sync', 'act'):
       yield ['skip']
 
